@@ -95,17 +95,17 @@ PLAN = {
         "level_text": _PROOF_TEXT,
         "level_note": _U_NOTE,
         "domains": "U",
-        "technique": _VC + " (domain U, unbounded)",
-        "monitor": None,
-        "explanation": _U_EXPL + "The primitive contracts are the hypothesis of the property itself.",
+        "technique": _VC + " (domain U, unbounded); counter-models are replayed natively on table-driven TermLists, which also serve as an additional bounded monitor",
+        "monitor": "m_model",
+        "explanation": _U_EXPL + "The primitive contracts are the hypothesis of the property itself. In addition (not part of the proof claim) the real algebra layer is run natively on random finite table-driven TermList implementations whose primitive outcomes are drawn among those the contracts allow.",
     },
     "C06": {
         "level": "proof",
         "level_text": _PROOF_TEXT,
         "level_note": _U_NOTE,
         "domains": "U",
-        "technique": _VC + " (domain U, unbounded)",
-        "monitor": None,
+        "technique": _VC + " (domain U, unbounded); counter-models are replayed natively on table-driven TermLists, which also serve as an additional bounded monitor",
+        "monitor": "m_model",
         "explanation": _U_EXPL + "List order is abstracted (the property speaks about sets and duplicate-freeness). Hypothesis on the term class: Term.vars is duplicate-free (proved for PolyhedralTerm by the C04 obligation PolyhedralTerm.accessors::vars.duplicate_free, domain S).",
         "trusted": ["Term.vars returns a duplicate-free list (proved for PolyhedralTerm in domain S by PolyhedralTerm.accessors; an assumption of this unbounded proof)"],
     },
